@@ -12,4 +12,8 @@ var zzEntries = map[string]func(){
 	"ZZ_C07_bmc":     ZZ_C07_bmc,
 	"ZZ_C08_bmc":     ZZ_C08_bmc,
 	"ZZ_C09_bmc":     ZZ_C09_bmc,
+	"ZZ_C15_update":  ZZ_C15_update,
+	"ZZ_C15_clamp":   ZZ_C15_clamp,
+	"ZZ_C15_detect":  ZZ_C15_detect,
+	"ZZ_C15_sites":   ZZ_C15_sites,
 }
